@@ -539,6 +539,9 @@ class Fn:
                 return f"(enumerate {self.iter_of(e.args[0])})"
             if n in ("find_eq", "find_lt", "find_le", "find_gt", "find_ge") and len(e.args) == 2 and not kw:
                 return f"(← findIn TinyFlux.Generated.{n} {self.atom(e.args[0])} {self.atom(e.args[1])})"
+            if (n == "isinstance" and len(e.args) == 2 and not kw and self.ty(e.args[0]) == "Q"
+                    and ast.unparse(e.args[1]) in ("(SimpleQuery, CompoundQuery)", "(CompoundQuery, SimpleQuery)")):
+                return f"(ext.is_query {self.atom(e.args[0])})"
             if n == "isinstance" and len(e.args) == 2 and not kw and isinstance(e.args[1], ast.Name) and e.args[1].id == "datetime" \
                     and self.ty(e.args[0]) == "Rhs":
                 return f"(Rhs.isDatetime {self.atom(e.args[0])})"
@@ -594,6 +597,10 @@ class Fn:
     def lam(self, l):
         if l.args.defaults or l.args.vararg or l.args.kwarg or len(l.args.args) != 1:
             raise Unsupported("lambda")
+        x = l.args.args[0].arg
+        if ast.unparse(l.body) == f"({x}.time is None, {x}.time)":
+            # the sort key "points without a time last, then by time": a point that storage returns has a time
+            return f"(fun {x} => (timeOf {x}).us)"
         body = self.ex(l.body)
         if "←" in body:
             raise Unsupported("lambda body may raise")
@@ -718,6 +725,9 @@ class Fn:
                 if ty is None and val == "[]":
                     ty = self.local_type(target.id, rest)
                 line = f"{ind}let {nm(target.id)}{' : ' + ty if ty else ''} := {val}\n"
+                self.known.pop(target.id, None)      # what was known about this flag no longer holds
+                if isinstance(s.value, ast.Constant) and isinstance(s.value.value, bool):
+                    self.known[target.id] = s.value.value
                 return line + self.block(rest, k, ind, defined | {target.id})
             if (isinstance(target, ast.Attribute) and isinstance(target.value, ast.Name) and self.env.get(target.value.id) == "IndexResult"
                     and target.attr == "_items"):
@@ -750,6 +760,11 @@ class Fn:
                 a = s.target.attr
                 return f"{ind}let self := {{ self with {a} := {new('self.' + a)} }}\n" + self.block(rest, k, ind, defined)
             raise Unsupported("augmented assignment " + ast.dump(s))
+        if (isinstance(s, ast.Expr) and isinstance(s.value, ast.Call) and isinstance(s.value.func, ast.Attribute)
+                and s.value.func.attr == "replace" and not s.value.args and {x.arg for x in s.value.keywords} == {"tzinfo"}
+                and isinstance(s.value.func.value, ast.Attribute) and s.value.func.value.attr == "time"):
+            # `point.time.replace(tzinfo=…)` with the result thrown away: datetimes are immutable, nothing happens
+            return self.block(rest, k, ind, defined)
         if isinstance(s, ast.Expr) and isinstance(s.value, ast.Call) and isinstance(s.value.func, ast.Attribute):
             c, f = s.value, s.value.func
             if c.keywords and not (f.attr == "sort") and not (_is_self_attr(f.value) and f.value.attr == "_storage"):
@@ -901,7 +916,7 @@ class Fn:
             if may_exit(s.body) or may_exit(s.orelse):
                 # a branch that leaves the iteration / the function on some path only: what follows the `if` is continued
                 # inside both branches
-                flag = s.test.id if isinstance(s.test, ast.Name) and s.test.id not in self.reassigned else None
+                flag = s.test.id if isinstance(s.test, ast.Name) and s.test.id in defined else None
                 saved = dict(self.known)
                 if flag:
                     self.known[flag] = True     # a later `if flag:` on this path is decided statically
@@ -920,7 +935,7 @@ class Fn:
             local = [v for v in fresh if not any(isinstance(n, ast.Name) and n.id == v and id(n) not in inside for n in later)]
             vs = [v for v in vs if v not in local]
             fresh = [v for v in fresh if v not in local]
-            if fresh and isinstance(s.test, ast.Name) and s.test.id in defined and s.test.id not in self.reassigned:
+            if fresh and isinstance(s.test, ast.Name) and s.test.id in defined:
                 # `if flag:` binds names that later code uses under the same flag: continue both branches separately, each
                 # knowing the flag (a later `if flag:` is then decided statically)
                 flag = s.test.id
@@ -937,8 +952,11 @@ class Fn:
                 raise Unsupported("an if without effect")
             t = self.tup(vs)
             self.after.append(rest)
+            saved_known = dict(self.known)
             tb = self.block(s.body, 'pure ' + t, i2, defined)
+            self.known = dict(saved_known)
             te = self.block(s.orelse, 'pure ' + t, i2, defined)
+            self.known = {a: b for a, b in saved_known.items() if a not in vs}
             self.after.pop()
             return (f"{ind}let {t} ← (if {c} then do\n{tb}"
                     f"{ind}else do\n{te}{ind})\n"
@@ -949,7 +967,16 @@ class Fn:
             tnames = {n.id for n in ast.walk(s.target) if isinstance(n, ast.Name)}
             vs = [v for v in assigned(s.body, self.cls.mutators) if v in defined or v == "self"]
             if not vs:
-                raise Unsupported("a loop without effect")
+                # a loop that can only raise: the fold carries nothing
+                self.after.append(list(s.body) + rest)
+                self.bind_target(s.target, s.iter)
+                saved, saved_b = self.loop_k, self.break_k
+                self.loop_k, self.break_k = "pure ()", None
+                body = self.block(s.body, "pure ()", ind + "    ", defined | tnames)
+                self.loop_k, self.break_k = saved, saved_b
+                self.after.pop()
+                return (f"{ind}let _ ← List.foldlM (fun (_ : Unit) {self.pat(s.target)} => do\n{body}{ind}  ) () {self.iter_of(s.iter)}\n"
+                        + self.block(rest, k, ind, defined))
             def has_break(stmts):
                 for x in stmts:
                     if isinstance(x, ast.Break):
@@ -1070,7 +1097,8 @@ INDEX_METHODS = [
 
 # the methods of `TinyFlux` that are translated (the list level: storage is the decoded view of its rows)
 DATABASE_METHODS = ["_reset_database", "_remove_helper", "count", "contains",
-                    "__len__", "get_field_keys", "get_field_values", "get_measurements", "get_tag_keys", "get_timestamps"]
+                    "__len__", "get_field_keys", "get_field_values", "get_measurements", "get_tag_keys", "get_timestamps",
+                    "search"]
 INDEX_READERS = ("get_field_keys", "get_field_values", "get_measurements", "get_tag_keys", "get_tag_values", "get_timestamps")
 
 
@@ -1149,6 +1177,7 @@ def generate_database(src: str) -> str:
         "  qand : Q → Q → Q                                -- `mq & query`",
         "  call : Q → Point → M Bool                       -- `query(point)`",
         "  index_search : IndexImpl.Self → Q → M IndexResult   -- `self._index.search(query)`",
+        "  is_query : Q → Bool := fun _ => true            -- `isinstance(query, (SimpleQuery, CompoundQuery))`",
         "",
         "/-- the attributes of `TinyFlux` (class-level annotations) -/",
         "structure Self where",
